@@ -10,6 +10,7 @@ package main
 
 import (
 	"context"
+	"errors"
 	"fmt"
 	"reflect"
 	"regexp"
@@ -17,6 +18,7 @@ import (
 	"strconv"
 	"strings"
 	"sync"
+	"time"
 
 	"0chain.net/chaincore/state"
 	"0chain.net/core/config"
@@ -338,9 +340,11 @@ type capture struct {
 }
 
 type memStore struct {
-	db   *gorm.DB
-	caps []capture
-	bad  []string
+	db       *gorm.DB
+	caps     []capture
+	bad      []string
+	failNext bool           // fault injection: the next insert into burn_tickets fails (once)
+	edb      *event.EventDb // worker stores only: EventDb with the real events worker running
 }
 
 func (s *memStore) Get() *gorm.DB              { return s.db }
@@ -357,7 +361,7 @@ var (
 	storePool = sync.Pool{}
 )
 
-func newStore() *memStore {
+func newStore(worker bool) *memStore {
 	storeMu.Lock()
 	storeSeq++
 	name := fmt.Sprintf("file:c20_%d?mode=memory&cache=shared", storeSeq)
@@ -367,12 +371,26 @@ func newStore() *memStore {
 		panic(err)
 	}
 	if sq, err := db.DB(); err == nil {
-		sq.SetMaxOpenConns(1)
+		if worker {
+			// ProcessEvents holds a transaction while the worker pings the pool (isEDBConnectionLost)
+			sq.SetMaxOpenConns(4)
+		} else {
+			sq.SetMaxOpenConns(1)
+		}
 	}
-	if err := db.AutoMigrate(&event.BurnTicket{}, &event.User{}, &event.Authorizer{}); err != nil {
+	if err := db.AutoMigrate(&event.BurnTicket{}, &event.User{}, &event.Authorizer{}, &event.Event{}); err != nil {
 		panic(err)
 	}
 	s := &memStore{db: db}
+	// fault injection point: the INSERT of a burn ticket (addBurnTicket → FirstOrCreate → create callbacks)
+	if err := db.Callback().Create().Before("gorm:create").Register("c20:fault", func(d *gorm.DB) {
+		if s.failNext && d.Statement.Table == "burn_tickets" {
+			s.failNext = false
+			d.AddError(errInjected)
+		}
+	}); err != nil {
+		panic(err)
+	}
 	// the batched `UPDATE … FROM (SELECT unnest(?::text[]) …)` statements are Postgres-only: capture their row
 	// vectors and apply them to sqlite row by row (same effect for distinct ids). Everything else runs as it is.
 	err = db.Callback().Raw().Replace("gorm:raw", func(d *gorm.DB) {
@@ -414,17 +432,58 @@ func newStore() *memStore {
 	return s
 }
 
+var errInjected = errors.New("injected fault: burn_tickets insert failed")
+
+func cleanStore(s *memStore) {
+	s.caps, s.bad, s.failNext = nil, nil, false
+	for _, t := range []string{"burn_tickets", "users", "authorizers", "events"} {
+		if err := s.db.Exec("DELETE FROM " + t).Error; err != nil {
+			panic(err)
+		}
+	}
+}
+
 func getStore() *memStore {
 	if s, ok := storePool.Get().(*memStore); ok && s != nil {
-		s.caps, s.bad = nil, nil
-		for _, t := range []string{"burn_tickets", "users", "authorizers"} {
-			if err := s.db.Exec("DELETE FROM " + t).Error; err != nil {
-				panic(err)
-			}
-		}
+		cleanStore(s)
 		return s
 	}
-	return newStore()
+	return newStore(false)
+}
+
+var workerPool = sync.Pool{}
+
+// getWorkerStore: a store with an EventDb whose REAL events worker (addEventsWorker) is running.
+func getWorkerStore() *memStore {
+	if s, ok := workerPool.Get().(*memStore); ok && s != nil {
+		cleanStore(s)
+		return s
+	}
+	s := newStore(true)
+	s.edb = event.VerifNewWorkerEventDb(context.Background(), s)
+	return s
+}
+
+// process: the exported ProcessEvents on the block's events, committing at once (as finalization does)
+func process(s *memStore, evs []event.Event, round int64, hash string, fail bool) string {
+	s.failNext = fail
+	ctx, cancel := context.WithTimeout(context.Background(), 20*time.Second)
+	defer cancel()
+	in := append([]event.Event(nil), evs...)
+	_, _, err := s.edb.ProcessEvents(ctx, in, round, hash, len(in), func(event.BlockEvents) error { return nil }, event.CommitNow())
+	s.failNext = false
+	var nt, ne int64
+	if e := s.db.Model(&event.BurnTicket{}).Count(&nt).Error; e != nil {
+		return "dberr"
+	}
+	if e := s.db.Model(&event.Event{}).Count(&ne).Error; e != nil {
+		return "dberr"
+	}
+	e := 0
+	if err != nil {
+		e = 1
+	}
+	return fmt.Sprintf("err=%d tickets=%d events=%d", e, nt, ne)
 }
 
 // ---- the implementation run -------------------------------------------------------------------------------------
@@ -518,7 +577,13 @@ func impl(ops []string) []string {
 		merged []event.Event
 		mergeOK bool
 		names  = map[event.EventTag][]string{} // field names in use per tag (first item seen)
+		ws     *memStore                       // worker store of this case (process ops), kept across the case
 	)
+	defer func() {
+		if ws != nil {
+			workerPool.Put(ws)
+		}
+	}()
 	for i, op := range ops {
 		w := strings.Fields(op)
 		func() {
@@ -535,6 +600,9 @@ func impl(ops []string) []string {
 					return
 				}
 				round, hash, evs, ems, merged, mergeOK = r, w[2], nil, nil, nil, false
+				if ws != nil {
+					cleanStore(ws)
+				}
 				names = map[event.EventTag][]string{}
 				outs[i] = "ok"
 			case len(w) >= 1 && w[0] == "ev":
@@ -592,6 +660,15 @@ func impl(ops []string) []string {
 				parts = append(parts, ";")
 				parts = append(parts, others...)
 				outs[i] = strings.Join(parts, " ")
+			case len(w) == 2 && w[0] == "process":
+				if w[1] != "fail" && w[1] != "ok" {
+					outs[i] = "bad-op"
+					return
+				}
+				if ws == nil {
+					ws = getWorkerStore()
+				}
+				outs[i] = process(ws, evs, round, hash, w[1] == "fail")
 			case len(w) == 1 && w[0] == "handle":
 				if !mergeOK {
 					outs[i] = "nomerge"
